@@ -47,6 +47,8 @@ def main():
     finally:
         subprocess.run(["git", "-C", "/repo", "worktree", "remove", "--force", wt])
         shutil.rmtree(ev, ignore_errors=True)
+        # the translators wrote lean/Tulz/Generated/* from the scratch worktree: put back what /repo says
+        subprocess.run([sys.executable, os.path.join(VERIF, "tools", "translate_all.py")], env=dict(os.environ, TULZ_REPO="/repo"), capture_output=True)
     missed = [r for r in rows if not r[2].startswith("CAUGHT")]
     print("%d seeds, %d caught with a concrete replay" % (len(rows), len(rows) - len(missed)))
     return 1 if missed else 0
